@@ -358,7 +358,7 @@ func fnGetBit(ctx *cmdContext, args map[string]any) (output respValue, err error
 	keyName := args["key"].(string)
 	bit64 := args["offset"].(int64)
 
-	if bit64 < 0 {
+	if bit64 < 0 || bit64 >= maxStringLength*8 {
 		output.data = respErrorString("ERR bit offset is not an integer or out of range")
 		return
 	}
@@ -391,7 +391,7 @@ func fnSetBit(ctx *cmdContext, args map[string]any) (output respValue, err error
 	offset64 := args["offset"].(int64)
 	value64 := args["value"].(int64)
 
-	if offset64 < 0 {
+	if offset64 < 0 || offset64 >= maxStringLength*8 {
 		output.data = respErrorString("ERR bit offset is not an integer or out of range")
 		return
 	}
@@ -411,6 +411,11 @@ func fnSetBit(ctx *cmdContext, args map[string]any) (output respValue, err error
 	}
 
 	result := ctx.dsc.bitfieldWrite(keyName, []*bitfieldOp{op})
+	if result.isErrorType() {
+		// wrong type of key
+		output = result
+		return
+	}
 
 	// result is an array of 1; convert it to a single output value
 	ra := result.toNative().([]any)
